@@ -180,6 +180,19 @@ theorem finalLen_truncate_le (size0 : Nat) (r : Resp) (opt : Option Opt) (hc : C
       simp only [htc', finalLen, Bool.false_eq_true, ↓reduceIte]
       exact hb.2
 
+/-- Whatever is cut from a message, what is left is no longer than the whole message was
+(`Len()` of all records, compressed, with the same OPT record). -/
+theorem finalLen_le_full (r : Resp) (c : Cut) (opt : Option Opt) (hc : Contract r) :
+    finalLen r c opt ≤ r.q + sum r.ans + sum r.ns + sum r.extra + optLen? opt := by
+  obtain ⟨_, _, h3⟩ := hc
+  have a1 := h3 c.ke
+  have a2 : sum (r.ns2.take c.kn) ≤ sum r.ns2 := sum_take_le _ _
+  have a3 : sum (r.extra.take c.ke) ≤ sum r.extra := sum_take_le _ _
+  have a4 : sum (r.ns.take c.kn) ≤ sum r.ns := sum_take_le _ _
+  have a5 : sum (r.ans.take c.ka) ≤ sum r.ans := sum_take_le _ _
+  unfold finalLen
+  split <;> omega
+
 /-! ## `truncate`: TC and the answer section -/
 
 theorem truncate_tc_ka (x : Bool) (s : Nat) (r : Resp) (o : Option Opt) :
